@@ -272,6 +272,10 @@ class Parser:
             if self.starts_expr():
                 hi = self.expr(P_RANGE + 1, no_struct)
             left = ("range", None, hi, incl)
+        elif stmt_pos and self.peek()[0] == "ident" and self.peek()[1] in ("if", "match", "while", "for", "loop", "unsafe"):
+            left = self.primary(no_struct)      # block-like expression statement: no call/index postfix
+        elif stmt_pos and self.at("{"):
+            left = self.primary(no_struct)
         else:
             left = self.unary(no_struct)
         if stmt_pos and left[0] in ("if", "iflet", "match", "while", "whilelet", "for", "loop", "block", "unsafe"):
